@@ -17,7 +17,6 @@ from __future__ import annotations
 """Service-related policy factories."""
 
 # pylint:disable=g-import-not-at-top
-import functools
 import time
 
 from vizier import pythia
@@ -75,9 +74,13 @@ class DefaultPolicyFactory(pythia.PolicyFactory):
       from vizier._src.algorithms.designers import grid
 
       shuffle_seed = int(time.time())
-      grid_factory = functools.partial(
-          grid.GridSearchDesigner.from_problem, shuffle_seed=shuffle_seed
-      )
+
+      # NOTE: `from_problem` takes the shuffle seed as `seed`; the policy calls
+      # the factory with its own `seed=` (None), which must not override it.
+      def grid_factory(problem, seed=None):
+        del seed
+        return grid.GridSearchDesigner.from_problem(problem, seed=shuffle_seed)
+
       return dp.PartiallySerializableDesignerPolicy(
           problem_statement,
           policy_supporter,
